@@ -52,9 +52,24 @@ class RT:
         self.inside = []         # threads currently inside run_forever of the target
         self.nlocks = 0
         self.moves = 0           # number of log entries by anybody (for the yield gate)
+        self.frozen = False
+        self.tpos = 0            # position in ctl.trace up to which time jumps were copied to the log
 
     def ev(self, *e):
+        if self.frozen:
+            return               # the run is over (tear-down of aborted threads / GC of coroutines)
+        self.flush_adv()
         self.log.append(list(e))
+
+    def flush_adv(self):
+        """Virtual-time jumps made by the controller since the last logged event
+        become ['clk', 'adv', ticks] entries (in order)."""
+        tr = self.ctl.trace
+        while self.tpos < len(tr):
+            a, b = tr[self.tpos]
+            self.tpos += 1
+            if a == 'adv':
+                self.log.append(['clk', 'adv', int(b)])
 
     def me(self):
         return self.ctl.me() or 'main'
@@ -69,7 +84,10 @@ class TLock(gate.GLock):
 
     def acquire(self, blocking=True, timeout=-1):
         r = super().acquire(blocking, timeout)
-        self.rt.ev(self.rt.me(), 'acq', self.lid)
+        if r:
+            self.rt.ev(self.rt.me(), 'acq', self.lid)
+        else:
+            self.rt.ev(self.rt.me(), 'acqfail', self.lid)
         return r
 
     def release(self):
@@ -267,6 +285,53 @@ class JFuture(gate.GFuture):
         return gate.cf.Future.result(self, timeout)
 
 
+class XFuture(gate.cf.Future):
+    """concurrent future returned by the substituted run_coroutine_threadsafe: a
+    blocking .result()/.exception() from a managed thread is a gate (and is logged:
+    the library never blocks on it — it goes through asyncio.wrap_future)."""
+    rt = None
+
+    def _block(self, what):
+        rt = self.rt
+        c = rt.ctl if rt is not None else None
+        if c is not None and c.me() is not None and not self.done():
+            rt.ev(rt.me(), 'block', what)
+            c.gate('xres', enabled=self.done)
+
+    def result(self, timeout=None):
+        self._block('result')
+        return gate.cf.Future.result(self, timeout)
+
+    def exception(self, timeout=None):
+        self._block('exception')
+        return gate.cf.Future.exception(self, timeout)
+
+
+def make_run_coro_ts(rt):
+    """asyncio.run_coroutine_threadsafe (3.12) verbatim, except for the class of
+    the concurrent future it returns."""
+    from asyncio import coroutines, futures
+
+    def run_coroutine_threadsafe(coro, loop):
+        if not coroutines.iscoroutine(coro):
+            raise TypeError('A coroutine object is required')
+        future = XFuture()
+        future.rt = rt
+
+        def callback():
+            try:
+                futures._chain_future(asyncio.ensure_future(coro, loop=loop), future)
+            except (SystemExit, KeyboardInterrupt):
+                raise
+            except BaseException as exc:
+                if future.set_running_or_notify_cancel():
+                    future.set_exception(exc)
+                raise
+        loop.call_soon_threadsafe(callback)
+        return future
+    return run_coroutine_threadsafe
+
+
 def run_case(case, chooser=None, max_steps=1500):
     """Run one case on the real library.  Returns the observation dict."""
     import aiuti.asyncio as A
@@ -282,7 +347,7 @@ def run_case(case, chooser=None, max_steps=1500):
     vals = [Val(k) for k in range(n)]
     excs = [HExc(k) for k in range(n)]
     saved = {k: getattr(A, k) for k in
-             ('_CROSS_LOOP_POOL', 'Lock', 'sleep', '_LOOP_LOCKS', '_LOOP_LOCKS_CREATE_LOCK')}
+             ('_CROSS_LOOP_POOL', 'Lock', 'sleep', '_LOOP_LOCKS', '_LOOP_LOCKS_CREATE_LOCK', 'run_coro_ts')}
     pool = JExecutor(rt)
     gate.GFuture, saved_gf = JFuture, gate.GFuture      # JExecutor.submit builds gate.GFuture()
     JFuture.rt = rt
@@ -305,6 +370,7 @@ def run_case(case, chooser=None, max_steps=1500):
     A.sleep = ysleep
     A._LOOP_LOCKS = tbl
     A._LOOP_LOCKS_CREATE_LOCK = TLock(rt, 0)
+    A.run_coro_ts = make_run_coro_ts(rt)
     flags = dict(lit=False, done=0, others=0)
     aws, coros = [], []
     try:
@@ -357,11 +423,27 @@ def run_case(case, chooser=None, max_steps=1500):
                         pass
             return body
 
+        def quiescent():
+            for nm in ctl.order:
+                rec = ctl.th[nm]
+                if nm == 'm' or rec['state'] == 'done':
+                    continue
+                if rec['enabled']():
+                    return False
+                w = rec['when']
+                if w is not None and w() is not None:
+                    return False
+            return True
+
         def mgr():
             stop = A.loop_in_thread(L)
             rt.ev('m', 'litret', bool(L._raw_running()))
             flags['lit'] = True
-            ctl.gate('m.wait', enabled=lambda: flags['done'] >= n)
+            # the user of loop_in_thread stops the loop when every caller is done; in 'race'
+            # mode also when the whole system is quiescent (nothing enabled, no timer): the
+            # callers that saw the loop idle are then waiting for the per-loop lock the
+            # forever-thread holds, and only stop() lets them go on
+            ctl.gate('m.wait', enabled=lambda: flags['done'] >= n or (mode == 'race' and quiescent()))
             rt.ev('m', 'wait')
             stop()
             jdone = all(f.done() for f, _ in pool.futs if f.worker == 'jm')
@@ -372,6 +454,8 @@ def run_case(case, chooser=None, max_steps=1500):
         for i in range(n):
             ctl.spawn(f'c{i}', caller(i))
         res = ctl.run()
+        rt.flush_adv()
+        rt.frozen = True
         stuck = [[nm, op] for nm, op in ctl.stuck()] if res != 'ok' else []
         texc = [[nm, type(ctl.th[nm]['exc']).__name__] for nm in ctl.order if ctl.th[nm]['exc'] is not None]
         sched = [nm for nm, _ in ctl.trace if nm != 'adv']
